@@ -2,7 +2,7 @@
    Model: C07_Model.v (transcription of mpicommunication.hh / communication.hh / mpitraits.hh / mpidata.hh / mpipack.hh),
    Spec: C07_Spec.v.  The MPI library's own collectives are the trusted semantics c07_MPI_*. *)
 From Coq Require Import List NArith ZArith Bool Arith Permutation.
-From DuneV Require Import Params_gen C07_Model C07_Spec C07_Proofs C07_Proofs_Coll C07_Proofs_Data.
+From DuneV Require Import Params_gen C07_Model C07_Spec C07_Proofs C07_Proofs_Coll C07_Proofs_Data C07_Proofs_Audit2.
 Import ListNotations.
 
 (* rrecv (MPI_Mprobe + MPI_Get_count + resize + MPI_Mrecv): for every element type with a non-empty packed size, every sent
@@ -478,3 +478,66 @@ Theorem C07_rrecv_reuse : forall (E : Type) (merge : E -> E -> E) (d : E) tsize 
   (c07_rrecv E (idm E) d tsize s1 data = Some s1 /\ c07_rrecv E (idm E) d tsize s2 s1 = Some s2).
 Proof. exact P_rrecv_reuse. Qed.
 Print Assumptions C07_rrecv_reuse.
+
+(* ==== second dimension audit ==== *)
+(* ASYMMETRIC ARGUMENTS: gatherv / scatterv where every rank passes its OWN count / displacement arrays (args: one pair per rank, any
+   number of ranks, any content): the result is a function of the ROOT's pair alone -- whatever the other ranks pass -- and equals the
+   collective with the root's arrays (to which C07_collectives_are_spec applies) *)
+Theorem C07_v_root_args_only : forall (E : Type) (merge : E -> E -> E) root ins outs (args args' : list (list nat * list nat)),
+  nth_error args root = nth_error args' root ->
+  c07_mpi_gatherv_ranks E merge root ins args outs = c07_mpi_gatherv_ranks E merge root ins args' outs /\
+  c07_mpi_scatterv_ranks E merge root ins args outs = c07_mpi_scatterv_ranks E merge root ins args' outs.
+Proof. exact P_v_root_args_only. Qed.
+Print Assumptions C07_v_root_args_only.
+
+Theorem C07_v_ranks_are_root : forall (E : Type) (merge : E -> E -> E) root ins outs (args : list (list nat * list nat)) lens displs,
+  nth_error args root = Some (lens, displs) ->
+  c07_mpi_gatherv_ranks E merge root ins args outs = c07_mpi_gatherv E merge root ins lens displs outs /\
+  c07_mpi_scatterv_ranks E merge root ins args outs = c07_mpi_scatterv E merge root ins lens displs outs.
+Proof. exact P_v_ranks_root. Qed.
+Print Assumptions C07_v_ranks_are_root.
+
+(* non-vacuity: 3 ranks, root 1, the other ranks pass garbage arrays *)
+Example C07_v_root_args_only_example :
+  c07_mpi_gatherv_ranks Z (idm Z) 1 [[5; 6]; [7]; []]%Z [([9; 9; 9], [70; 80; 90]); ([2; 1; 0], [3; 0; 6]); ([], [])]
+      [[]; [-1; -1; -1; -1; -1; -1; -1]; []]%Z = Some [[]; [7; -1; -1; 5; 6; -1; -1]; []]%Z.
+Proof. vm_compute. reflexivity. Qed.
+
+(* igather: receive objects of ANY size on the non-root ranks (also empty ones): the root's result does not depend on them and they come
+   back untouched;  iscatter: send objects of any size on the non-root ranks: the result depends on the root's send object only *)
+Theorem C07_igather_root_out_only : forall (E : Type) (merge : E -> E -> E) root (ins outs outs' : list (list E)),
+  nth_error outs root = nth_error outs' root -> root < length outs -> root < length outs' ->
+  match c07_mpi_igather E merge root ins outs, c07_mpi_igather E merge root ins outs' with
+  | Some r, Some r' => nth_error r root = nth_error r' root /\ (forall j, j <> root -> nth_error r j = nth_error outs j)
+  | None, None => True
+  | _, _ => False
+  end.
+Proof. exact P_igather_root_out_only. Qed.
+Print Assumptions C07_igather_root_out_only.
+
+Theorem C07_iscatter_root_in_only : forall (E : Type) (merge : E -> E -> E) root (ins ins' outs : list (list E)),
+  nth_error ins root = nth_error ins' root ->
+  c07_mpi_iscatter E merge root ins outs = c07_mpi_iscatter E merge root ins' outs.
+Proof. exact P_iscatter_root_in_only. Qed.
+Print Assumptions C07_iscatter_root_in_only.
+
+Example C07_igather_root_out_only_example :
+  c07_mpi_igather Z (idm Z) 0 [[5]; [7]]%Z [[-1; -1; -1]; []]%Z = Some [[5; 7; -1]; []]%Z /\
+  c07_mpi_iscatter Z (idm Z) 1 [[]; [5; 7]]%Z [[-1]; [-2]]%Z = Some [[5]; [7]]%Z.
+Proof. vm_compute. split; reflexivity. Qed.
+
+(* PRE-EXISTING STATE OF THE TARGET: rrecv of a pack into a pack that already holds ANY bytes and ANY cursor: the buffer becomes exactly
+   the message (no earlier byte survives, size = message size); the cursor is the target's old cursor (rrecv never seeks: a re-used pack
+   has to be rewound by the caller -- C07_pack_send_rrecv is the cursor-0 case);  move assignment onto any target gives the source *)
+Theorem C07_pack_rrecv_into_used : forall (B : Type) (zeroB : B) (wire : list B) (p0 : c07_pack B),
+  c07_pack_rrecv B zeroB wire p0 = Some (C07_PK B wire (c07_pk_pos B p0)).
+Proof. exact P_pack_rrecv_into_used. Qed.
+Print Assumptions C07_pack_rrecv_into_used.
+
+Theorem C07_pack_move_assign : forall (B : Type) (dst src : c07_pack B), c07_pk_move_assign B dst src = src.
+Proof. exact P_pack_move_assign. Qed.
+Print Assumptions C07_pack_move_assign.
+
+Example C07_pack_rrecv_into_used_example :
+  c07_pack_rrecv N 0%N [1; 2]%N (C07_PK N [9; 9; 9; 9; 9]%N 4) = Some (C07_PK N [1; 2]%N 4).
+Proof. vm_compute. reflexivity. Qed.
